@@ -705,7 +705,326 @@ def regenerate(repo: str = REPO) -> Dict[str, List[str]]:
     text, known2, errs = gen_cuda(known, repo)
     write_if_changed(os.path.join(GEN_DIR, "CudaKernels.lean"), text)
     report["CudaKernels"] = errs
+    text, table, errs = gen_attrs(repo)
+    write_if_changed(os.path.join(GEN_DIR, "Attrs.lean"), text)
+    report["Attrs"] = errs
+    report["_attr_table"] = table  # type: ignore
     return report
+
+
+# ------------------------------------------------------------------------------------------
+# region: SpectrumResult.__getattr__ — partial evaluation w.r.t. (name, iscsd)
+# ------------------------------------------------------------------------------------------
+ATTR_DATA_KEYS = {"f", "r", "b", "L", "K", "navg", "D", "O", "i", "XX", "YY", "XY", "S12", "S2", "M2", "compute_t", "m", "nf"}
+ATTR_DATA_KIND = {"XX": "R", "YY": "R", "XY": "C", "S12": "R", "S2": "R", "M2": "R", "navg": "R"}
+ATTR_SEQUENCE_LEVEL = {"cf_rad_unwrapped", "cf_deg_unwrapped"}  # np.unwrap couples bins: modelled separately
+
+
+class _NoneVal(Exception):
+    pass
+
+
+class AttrPE:
+    def __init__(self, fn: ast.FunctionDef, mode_cross: bool, names: List[str]):
+        self.fn = fn
+        self.cross = mode_cross
+        self.names = names
+        self.ns = "Cross" if mode_cross else "Auto"
+        self.done: Dict[str, Optional[Tuple[str, str]]] = {}   # name -> (kind, lean text) or None (Python None)
+        self.order: List[str] = []
+        self.errors: List[str] = []
+        self.stack: List[str] = []
+
+    # ---- static evaluation of tests on `name` / `self.iscsd`
+    def static(self, t: ast.AST, name: str):
+        if isinstance(t, ast.Compare) and len(t.ops) == 1 and isinstance(t.left, ast.Name) and t.left.id == "name":
+            rhs = t.comparators[0]
+            if isinstance(t.ops[0], ast.Eq) and isinstance(rhs, ast.Constant):
+                return name == rhs.value
+            if isinstance(t.ops[0], ast.In):
+                if isinstance(rhs, (ast.List, ast.Tuple)) and all(isinstance(x, ast.Constant) for x in rhs.elts):
+                    return name in [x.value for x in rhs.elts]
+                u = ast.unparse(rhs)
+                if u == "self._cache":
+                    return False          # cache layer is modelled separately (C14)
+                if u == "self._data":
+                    return name in ATTR_DATA_KEYS
+        if isinstance(t, ast.Call) and ast.unparse(t.func) == "name.endswith" and len(t.args) == 1:
+            a = t.args[0]
+            suf = [x.value for x in a.elts] if isinstance(a, ast.Tuple) else [a.value]
+            return name.endswith(tuple(suf))
+        if isinstance(t, ast.Call) and ast.unparse(t.func) == "name.startswith" and len(t.args) == 1:
+            return name.startswith(t.args[0].value)
+        if isinstance(t, ast.Attribute) and ast.unparse(t) == "self.iscsd":
+            return self.cross
+        if isinstance(t, ast.UnaryOp) and isinstance(t.op, ast.Not):
+            return not self.static(t.operand, name)
+        raise Unsupported(f"line {getattr(t, 'lineno', '?')}: test {ast.unparse(t)} is not static in (name, iscsd)")
+
+    # ---- expressions
+    def ex(self, e: ast.AST, loc: Dict[str, Val]) -> Val:
+        if isinstance(e, ast.Constant):
+            if e.value is None:
+                raise _NoneVal()
+            if isinstance(e.value, (int, float)) and not isinstance(e.value, bool):
+                if isinstance(e.value, int):
+                    return Val(f"(RealLike.ofNat {e.value})" if e.value >= 0 else f"(RealLike.ofInt ({e.value}))", "R")
+                return Val(_lit_float(e.value), "R")
+        if isinstance(e, ast.Name) and e.id in loc:
+            return loc[e.id]
+        if isinstance(e, ast.IfExp):
+            return self.ex(e.body if self.static(e.test, "") else e.orelse, loc)
+        if isinstance(e, ast.Subscript) and ast.unparse(e.value) == "self._data" and isinstance(e.slice, ast.Constant):
+            k = e.slice.value
+            if k not in ATTR_DATA_KIND:
+                raise Unsupported(f"data key {k}")
+            return Val(f"d.{k}", ATTR_DATA_KIND[k])
+        if isinstance(e, ast.Attribute) and isinstance(e.value, ast.Name) and e.value.id == "self":
+            if e.attr == "fs":
+                return Val("d.fs", "R")
+            r = self.attr(e.attr)
+            if r is None:
+                raise Unsupported(f"line {e.lineno}: self.{e.attr} is None in {self.ns} mode but used in arithmetic")
+            return Val(f"({self.ns}.{e.attr} d)", r[0])
+        if isinstance(e, ast.UnaryOp) and isinstance(e.op, ast.USub):
+            v = self.ex(e.operand, loc)
+            return Val(f"(-{v.code})", v.kind) if v.kind == "R" else Val(f"(Cx.smul (RealLike.ofInt (-1)) {v.code})", "C")
+        if isinstance(e, ast.BinOp):
+            a, b = self.ex(e.left, loc), self.ex(e.right, loc)
+            return self.arith(e, a, b)
+        if isinstance(e, ast.Compare) and len(e.ops) == 1:
+            a, b = self.ex(e.left, loc), self.ex(e.comparators[0], loc)
+            if a.kind != "R" or b.kind != "R":
+                raise Unsupported("comparison on complex")
+            f = {ast.NotEq: "RealLike.bne", ast.Gt: "RealLike.gt", ast.Lt: "RealLike.lt", ast.GtE: "RealLike.ge",
+                 ast.LtE: "RealLike.le", ast.Eq: "RealLike.beq"}[type(e.ops[0])]
+            return Val(f"({f} {a.code} {b.code})", "B")
+        if isinstance(e, ast.BinOp) or isinstance(e, ast.BoolOp):
+            raise Unsupported("boolop")
+        if isinstance(e, ast.Call):
+            return self.call(e, loc)
+        raise Unsupported(f"line {getattr(e, 'lineno', '?')}: expression {ast.unparse(e)}")
+
+    def arith(self, e: ast.BinOp, a: Val, b: Val) -> Val:
+        op = e.op
+        if isinstance(op, ast.BitAnd) and a.kind == "B" and b.kind == "B":
+            return Val(f"({a.code} && {b.code})", "B")
+        if isinstance(op, ast.Pow):
+            if isinstance(e.right, ast.Constant) and e.right.value == 2 and a.kind == "R":
+                return Val(f"({a.code} * {a.code})", "R")
+            raise Unsupported(f"line {e.lineno}: power")
+        sym = {ast.Add: "+", ast.Sub: "-", ast.Mult: "*", ast.Div: "/"}.get(type(op))
+        if sym is None:
+            raise Unsupported(f"line {e.lineno}: operator")
+        if a.kind == "R" and b.kind == "R":
+            return Val(f"({a.code} {sym} {b.code})", "R")
+        if a.kind == "C" and b.kind == "C" and sym in "+-*":
+            return Val(f"({a.code} {sym} {b.code})", "C")
+        if sym == "*" and a.kind == "R" and b.kind == "C":
+            return Val(f"(Cx.smul {a.code} {b.code})", "C")
+        if sym == "*" and a.kind == "C" and b.kind == "R":
+            return Val(f"(Cx.smul {b.code} {a.code})", "C")
+        if sym == "/" and a.kind == "C" and b.kind == "R":
+            return Val(f"(Cx.divReal {a.code} {b.code})", "C")
+        if sym in "+-" and a.kind == "R" and b.kind == "C":
+            return Val(f"(Cx.ofReal {a.code} {sym} {b.code})", "C")
+        if sym in "+-" and a.kind == "C" and b.kind == "R":
+            return Val(f"({a.code} {sym} Cx.ofReal {b.code})", "C")
+        raise Unsupported(f"line {e.lineno}: arithmetic {a.kind}{sym}{b.kind}")
+
+    def call(self, e: ast.Call, loc: Dict[str, Val]) -> Val:
+        fn = ast.unparse(e.func)
+        kw = {k.arg: k.value for k in e.keywords}
+        if fn == "np.divide":
+            a, b = self.ex(e.args[0], loc), self.ex(e.args[1], loc)
+            c = self.ex(kw["where"], loc)
+            out = ast.unparse(kw["out"])
+            if not out.startswith("np.zeros_like("):
+                raise Unsupported("np.divide out= is not zeros_like")
+            if b.kind != "R" or c.kind != "B":
+                raise Unsupported("np.divide kinds")
+            if a.kind == "C" or "dtype=complex" in out:
+                if a.kind == "R":
+                    a = Val(f"(Cx.ofReal {a.code})", "C")
+                return Val(f"(if {c.code} then Cx.divReal {a.code} {b.code} else Cx.ofReal RealLike.zero)", "C")
+            return Val(f"(if {c.code} then {a.code} / {b.code} else RealLike.zero)", "R")
+        if fn == "np.nan_to_num":
+            for k in kw:
+                if k not in ("nan", "posinf", "neginf"):
+                    raise Unsupported("nan_to_num keyword")
+            return self.ex(e.args[0], loc)        # identity on finite values (stated assumption)
+        if fn == "np.ones_like":
+            return Val("RealLike.one", "R")
+        if fn == "np.zeros_like":
+            return Val("RealLike.zero", "R")
+        args = [self.ex(a, loc) for a in e.args]
+        one = args[0] if args else None
+        if fn == "np.conj" and one.kind == "C":
+            return Val(f"(Cx.conj {one.code})", "C")
+        if fn == "np.abs":
+            return Val(f"(Cx.abs {one.code})", "R") if one.kind == "C" else Val(f"(RealLike.abs {one.code})", "R")
+        if fn == "np.sqrt" and one.kind == "R":
+            return Val(f"(RealLike.sqrt {one.code})", "R")
+        if fn == "np.arcsin" and one.kind == "R":
+            return Val(f"(RealLike.arcsin {one.code})", "R")
+        if fn == "np.real" and one.kind == "C":
+            return Val(f"{one.code}.re", "R")
+        if fn == "np.imag" and one.kind == "C":
+            return Val(f"{one.code}.im", "R")
+        if fn == "np.angle" and one.kind == "C":
+            base = f"(RealLike.atan2 {one.code}.im {one.code}.re)"
+            if "deg" in kw:
+                if ast.unparse(kw["deg"]) != "True":
+                    raise Unsupported("np.angle deg")
+                return Val(f"({base} * ((RealLike.ofNat 180) / RealLike.pi))", "R")
+            return Val(base, "R")
+        if fn == "np.rad2deg" and one.kind == "R":
+            return Val(f"({one.code} * ((RealLike.ofNat 180) / RealLike.pi))", "R")
+        if fn == "ct.mag2db" and one.kind == "R":
+            return Val(f"((RealLike.ofSci 200 true 1) * RealLike.log10 {one.code})", "R")
+        raise Unsupported(f"line {e.lineno}: call {fn}")
+
+    # ---- symbolic execution of the body for one name
+    def run(self, stmts: List[ast.stmt], name: str, loc: Dict[str, Val], lets: List[str]):
+        """returns Val of `val` or raises _NoneVal; None if no assignment to val happened"""
+        val = None
+        for s in stmts:
+            if isinstance(s, ast.Expr) and isinstance(s.value, ast.Constant):
+                continue
+            if isinstance(s, ast.If):
+                branch = s.body if self.static(s.test, name) else s.orelse
+                r = self.run(branch, name, loc, lets)
+                if r is not None:
+                    val = r
+                continue
+            if isinstance(s, ast.AnnAssign) and isinstance(s.target, ast.Name) and s.target.id == "val":
+                val = "NONE"
+                continue
+            if isinstance(s, ast.Raise):
+                raise Unsupported(f"{name}: reaches raise at line {s.lineno}")
+            if isinstance(s, ast.Return):
+                if ast.unparse(s.value) in ("val",):
+                    continue
+                raise Unsupported(f"{name}: return at line {s.lineno}")
+            if isinstance(s, ast.Assign) and len(s.targets) == 1:
+                t = s.targets[0]
+                if ast.unparse(t) == "self._cache[name]":
+                    continue
+                if isinstance(t, ast.Tuple) and isinstance(s.value, ast.Tuple):
+                    for tn, tv in zip(t.elts, s.value.elts):
+                        self.bind(tn.id, tv, loc, lets)
+                    continue
+                if isinstance(t, ast.Name):
+                    if t.id == "val":
+                        try:
+                            self.bind("val", s.value, loc, lets)
+                            val = loc["val"]
+                        except _NoneVal:
+                            val = "NONE"
+                    else:
+                        self.bind(t.id, s.value, loc, lets)
+                    continue
+            raise Unsupported(f"{name}: statement at line {s.lineno}: {ast.unparse(s)[:60]}")
+        return val
+
+    def bind(self, n: str, v: ast.AST, loc: Dict[str, Val], lets: List[str]):
+        x = self.ex(v, loc)
+        ln = n + "_"
+        ty = {"R": "α", "C": "Cx α", "B": "Bool"}[x.kind]
+        lets.append(f"  let {ln} : {ty} := {x.code}")
+        loc[n] = Val(ln, x.kind)
+
+    def attr(self, name: str) -> Optional[Tuple[str, str]]:
+        if name in self.done:
+            return self.done[name]
+        if name in self.stack:
+            raise Unsupported(f"cyclic attribute reference through {name}")
+        self.stack.append(name)
+        try:
+            lets: List[str] = []
+            v = self.run(self.fn.body, name, {}, lets)
+            if v is None:
+                raise Unsupported(f"{name}: no value assigned")
+            if v == "NONE":
+                self.done[name] = None
+            else:
+                ty = {"R": "α", "C": "Cx α"}[v.kind]
+                text = f"def {self.ns}.{name} (d : BinData α) : {ty} :=\n" + "".join(l + "\n" for l in lets) + f"  {v.code}\n"
+                self.done[name] = (v.kind, text)
+                self.order.append(name)
+        finally:
+            self.stack.pop()
+        return self.done[name]
+
+
+ATTR_HEADER = """/-
+  GENERATED by /verif/vk/translate.py from {src} (sha256 {sha}).
+  `SpectrumResult.__getattr__` partially evaluated with respect to the attribute name and the
+  analysis type (Auto / Cross): one straight-line definition per attribute over the per-bin
+  scalars.  `np.nan_to_num` is the identity on finite values and is translated as such.
+  Do not edit: regenerated from /repo's current source on every check run.
+-/
+import SpecKitV.Num
+
+namespace Gen
+variable {{α : Type}} [RealLike α]
+set_option linter.unusedVariables false
+
+/-- per-bin base estimates and constants an attribute is computed from -/
+structure BinData (α : Type) where
+  XX : α
+  YY : α
+  XY : Cx α
+  S12 : α
+  S2 : α
+  M2 : α
+  navg : α
+  fs : α
+
+"""
+
+
+def attr_names(repo: str = REPO) -> List[str]:
+    """the dynamic attribute list of SpectrumResult.__dir__"""
+    fns = parse_functions(os.path.join(repo, "speckit/analysis.py"))
+    d = fns["__dir__"]
+    for n in ast.walk(d):
+        if isinstance(n, ast.Assign) and ast.unparse(n.targets[0]) == "dynamic_attrs":
+            return [x.value for x in n.value.elts]
+    raise Unsupported("__dir__: dynamic_attrs list not found")
+
+
+def gen_attrs(repo: str = REPO) -> Tuple[str, Dict[str, Dict[str, Optional[str]]], List[str]]:
+    path = os.path.join(repo, "speckit/analysis.py")
+    out = ATTR_HEADER.format(src="speckit/analysis.py", sha=sha_of(path))
+    errors: List[str] = []
+    table: Dict[str, Dict[str, Optional[str]]] = {"Auto": {}, "Cross": {}}
+    try:
+        fns = parse_functions(path)
+        ga = fns["__getattr__"]
+        names = [n for n in attr_names(repo) if n not in ATTR_SEQUENCE_LEVEL]
+    except Exception as ex:  # noqa
+        return out + f"def attrs_UNSUPPORTED : Nat := translation_failed_attrs\nend Gen\n", table, [str(ex)]
+    for cross in (False, True):
+        pe = AttrPE(ga, cross, names)
+        for n in names:
+            try:
+                r = pe.attr(n)
+                table[pe.ns][n] = None if r is None else r[0]
+            except Unsupported as ex:
+                errors.append(f"{pe.ns}.{n}: {ex}")
+                table[pe.ns][n] = "ERR"
+        for n in pe.order:
+            out += pe.done[n][1] + "\n"
+        for n in names:
+            if table[pe.ns].get(n) == "ERR":
+                msg = [e for e in errors if e.startswith(f"{pe.ns}.{n}:")][0].replace("-/", "- /")
+                out += f"/- UNSUPPORTED {msg} -/\ndef {pe.ns}.{n}_UNSUPPORTED : Nat := translation_failed_{n}\n\n"
+        nones = sorted(n for n in names if table[pe.ns][n] is None)
+        out += f"/-- attributes that are Python `None` for {pe.ns.lower()} results -/\n"
+        out += f"def {pe.ns}.noneNames : List String := [" + ", ".join(f'"{n}"' for n in nones) + "]\n\n"
+    out += "end Gen\n"
+    return out, table, errors
 
 
 if __name__ == "__main__":
